@@ -3,6 +3,7 @@ package prioh
 import (
 	"fmt"
 	"math/rand"
+	"os"
 	"runtime"
 	"sort"
 	"sync"
@@ -197,10 +198,20 @@ recv:
 
 // ownMap: the options map belongs to the caller again once New has returned. Its owner keeps using it (emptying, refilling,
 // reading) from a goroutine that never synchronises with the discipline: any access by the library is a race on user data (C20).
+//
+// MAP_OWNER=busy (C20 only): a library that touches the map concurrently can make the runtime abort the whole process ("concurrent
+// map read and map write"), which is fine where the race report is the verdict. Elsewhere the owner just empties the map once, before
+// anything else runs: a library that still reads it loses its inputs, which the functional checks see.
 func ownMap(inputs map[uint]<-chan int, done <-chan struct{}) {
 	keys := make([]uint, 0, len(inputs))
 	for p := range inputs {
 		keys = append(keys, p)
+	}
+	if os.Getenv("MAP_OWNER") != "busy" {
+		for _, p := range keys {
+			delete(inputs, p)
+		}
+		return
 	}
 	go func() {
 		other := make(chan int)
